@@ -8,11 +8,21 @@
 use hcommon::Sexp;
 use std::time::Duration;
 
+/// A value that is only `Display` (a bare `String` handed to `capture_display` would be captured as a string).
+#[derive(Clone, Debug)]
+pub struct D(pub String);
+
+impl std::fmt::Display for D {
+    fn fmt(&self, f: &mut std::fmt::Formatter) -> std::fmt::Result {
+        f.write_str(&self.0)
+    }
+}
+
 #[derive(Clone, Debug)]
 pub enum V {
     Kind(emit::Kind),
     Str(String),
-    Disp(String),
+    Disp(D),
     I64(i64),
     U64(u64),
     I128(i128),
@@ -34,7 +44,7 @@ impl V {
                 _ => return None,
             }),
             ("str", 1) => V::Str(a[0].as_string()?),
-            ("disp", 1) => V::Disp(a[0].as_string()?),
+            ("disp", 1) => V::Disp(D(a[0].as_string()?)),
             ("i64", 1) => V::I64(a[0].as_i64()?),
             ("u64", 1) => V::U64(a[0].as_u64()?),
             ("i128", 1) => V::I128(a[0].as_i128()?),
@@ -53,7 +63,7 @@ impl V {
             V::Kind(emit::Kind::Span) => Sexp::tagged("kind", vec![Sexp::atom("span")]),
             V::Kind(_) => Sexp::tagged("kind", vec![Sexp::atom("metric")]),
             V::Str(s) => Sexp::tagged("str", vec![Sexp::str(s)]),
-            V::Disp(s) => Sexp::tagged("disp", vec![Sexp::str(s)]),
+            V::Disp(s) => Sexp::tagged("disp", vec![Sexp::str(&s.0)]),
             V::I64(n) => Sexp::tagged("i64", vec![Sexp::num(n)]),
             V::U64(n) => Sexp::tagged("u64", vec![Sexp::num(n)]),
             V::I128(n) => Sexp::tagged("i128", vec![Sexp::num(n)]),
@@ -89,7 +99,8 @@ impl sval::Value for V {
     fn stream<'sval, S: sval::Stream<'sval> + ?Sized>(&'sval self, stream: &mut S) -> sval::Result {
         match self {
             V::Kind(k) => stream.value_computed(&k.to_string()[..]),
-            V::Str(s) | V::Disp(s) => stream.value(&s[..]),
+            V::Str(s) => stream.value(&s[..]),
+            V::Disp(s) => stream.value(&s.0[..]),
             V::I64(n) => stream.i64(*n),
             V::U64(n) => stream.u64(*n),
             V::I128(n) => stream.i128(*n),
@@ -114,7 +125,8 @@ impl serde::Serialize for V {
     fn serialize<S: serde::Serializer>(&self, s: S) -> Result<S::Ok, S::Error> {
         match self {
             V::Kind(k) => s.serialize_str(&k.to_string()),
-            V::Str(x) | V::Disp(x) => s.serialize_str(x),
+            V::Str(x) => s.serialize_str(x),
+            V::Disp(x) => s.serialize_str(&x.0),
             V::I64(n) => s.serialize_i64(*n),
             V::U64(n) => s.serialize_u64(*n),
             V::I128(n) => s.serialize_i128(*n),
